@@ -11,9 +11,11 @@ fresh object is exported too and checked the same way; in Python it is compared 
 history on inputs whose running sums are exactly representable (no float tolerance in Python).
 """
 import atexit
+import copy
 import json
 import math
 import os
+import pickle
 import select
 import subprocess
 import sys
@@ -402,11 +404,15 @@ def make_case(rng, fam, sig, n, splits, mode, block, metric=None, auto=False, pa
 
 
 def history_ops(case):
-    """[('u', lo, hi) | ('c',)] in call order."""
+    """[('u', lo, hi) | ('k', mode) | ('c',)] in call order.  'k' = checkpoint: the history continues on a copy of the object
+    (copy.deepcopy / pickle round trip); it is invisible to the model: a copy must behave as the object itself."""
     ops, pos = [], 0
-    for size, nc in zip(case['splits'], case['computes']):
+    cps = case.get('checkpoints') or [''] * len(case['splits'])
+    for size, nc, cp in zip(case['splits'], case['computes'], cps):
         ops.append(('u', pos, pos + size))
         pos += size
+        if cp:
+            ops.append(('k', cp))
         ops.extend([('c',)] * nc)
     return ops
 
@@ -427,6 +433,10 @@ def _mixin_classes():
 
         class MatchDpa(T.TemplateDPADistinguisherMixin):
             pass
+        for cls in (Build, MatchStatic, MatchDpa):       # reachable by name from this module, so that the objects pickle
+            cls.__qualname__ = cls.__name__
+            cls.__module__ = __name__
+            globals()[cls.__name__] = cls
         _CLASSES.update(build=Build, static=MatchStatic, dpa=MatchDpa)
     return _CLASSES
 
@@ -477,12 +487,35 @@ class _Obj:
             r = self.d.compute()
             if r is not None:
                 raise HarnessError('TTestThreadAccumulator.compute() returned a value')
-            return [float(v) for v in self.d.mean.tolist()] + [float(v) for v in self.d.var.tolist()], [len(self.d.mean)]
+            vals = [float(v) for v in self.d.mean.tolist()] + [float(v) for v in self.d.var.tolist()]
+            shape = [len(self.d.mean)]
+            self._scribble(self.d.mean, self.d.var)
+            return vals, shape
         r = self.d.compute()
         vals = [float(v) for v in _flat(np.asarray(r).tolist())]
         if self.fam == 'tbuild':
             vals += [float(v) for v in _flat(np.asarray(self.d.pooled_covariance).tolist())]
-        return vals, list(np.asarray(r).shape)
+            self._scribble(self.d.pooled_covariance)
+        shape = list(np.asarray(r).shape)
+        self._scribble(r)
+        return vals, shape
+
+    def _scribble(self, *arrays):
+        """What a caller may do with a result it was given: overwrite it in place.  A later compute() must not return these
+        values (no memoised / aliased result) and later results must not depend on them (no aliasing of the accumulators)."""
+        if not self.case.get('scribble', True):
+            return
+        for a in arrays:
+            if isinstance(a, np.ndarray) and a.flags.writeable:
+                a[...] = -7777.25
+
+    def checkpoint(self, mode):
+        if mode == 'deepcopy':
+            self.d = copy.deepcopy(self.d)
+        elif mode == 'pickle':
+            self.d = pickle.loads(pickle.dumps(self.d))
+        else:
+            raise HarnessError(f'unknown checkpoint mode {mode}')
 
     def processed(self):
         return int(self.d.processed_traces)
@@ -532,6 +565,8 @@ def run_case(case):
             if op[0] == 'u':
                 o.update(batch_of(ptr, logical_tr, op[1], op[2], tl, sl), batch_of(pda, logical_da, op[1], op[2], dl, sl))
                 fresh = False
+            elif op[0] == 'k':
+                o.checkpoint(op[1])
             else:
                 vals, shape = o.compute()
                 if fresh and last is not None and not _same_bits(vals, last):
@@ -658,7 +693,7 @@ def _worker_main():
     for line in sys.stdin:
         case = json.loads(line)
         try:
-            res = run_case(case)
+            res = run_large(case) if case.get('large') else run_case(case)
         except HarnessError as e:
             res = {'harness_error': str(e)}
         except Exception as e:
@@ -690,7 +725,7 @@ def coq_case(case, obs):
     for op in history_ops(case):
         if op[0] == 'u':
             hist.append('HUpdate %s' % C.coq_list(rows[op[1]:op[2]], lambda r: C.coq_pair(C.coq_list(r[0], C.coq_z), C.coq_list(r[1], C.coq_z))))
-        else:
+        elif op[0] == 'c':
             hist.append('HCompute')
     comps = obs.get('computes', []) if 'raised' not in obs else []
     ob = C.coq_list(comps, lambda c: C.coq_pair(C.coq_z(c['n']), C.coq_list(c['vals'], F)))
@@ -763,6 +798,9 @@ class HistKind(Kind):
         """Overrides of the variants for the i-th case of the offset block."""
         return {}
 
+    def checkpoint_cases(self, quick):
+        return 6
+
     def word_dims(self, rng, kw, shape=None):
         """Word axes of the data: the families whose number of words is free take any shape; template build (one word) and static
         matching (data ignored) take shapes of one element."""
@@ -826,7 +864,14 @@ class HistKind(Kind):
             sig = nxt()
             kw = self.variants(rng, sig, sig in self._heavy)
             kw.update(self.layout_choice(rng, kw))
-            return make_case(rng, self.fam, sig, n, splits, mode, block, **kw)
+            c = make_case(rng, self.fam, sig, n, splits, mode, block, **kw)
+            # continue on a copy of the object after one of the updates (copying an object that holds a numba look-up closure
+            # recompiles it, ~0.5 s: rare for those kinds, which have their checkpoint block)
+            if rng.random() < (0.25 if self.fam not in ('part', 'mia', 'tbuild') else 0.02):
+                cps = [''] * len(splits)
+                cps[rng.randrange(len(splits))] = rng.choice(['deepcopy', 'pickle'])
+                c['checkpoints'] = cps
+            return c
 
         # --- deterministic boundary block: batch of 1 first, batch of 1 last, compute between 2nd and 3rd batch, single batch
         for rep in range(1 if quick else 4):
@@ -851,6 +896,17 @@ class HistKind(Kind):
                     splits = [[4, 4, 4], [1, 5, 6], [6, 6], [12], [2, 9, 1]][k % 5]
                     sig = OFFSET_SIG if self.jit else nxt()
                     yield make_case(rng, self.fam, sig, 12, splits, 'every' if k % 3 else 'doubled', 'memory_layout', **kw)
+            # checkpoints: the history continues on copy.deepcopy(obj) / pickle.loads(pickle.dumps(obj)) after the 1st / 2nd / every
+            # update (partitioned kinds: class sets <= 9 first, so that the update after the copy goes through kernel 2)
+            for i, (how, pos) in enumerate([('deepcopy', [1, 0, 0]), ('pickle', [1, 0, 0]), ('deepcopy', [0, 1, 0]), ('pickle', [1, 1, 1]),
+                                            ('deepcopy', [1, 1, 0, 0]), ('pickle', [0, 0, 1, 0])][:self.checkpoint_cases(quick)]):
+                kw = self.variants(rng, OFFSET_SIG, True)
+                kw.update(self.offset_variant(i))
+                kw.pop('auto', None)
+                sig = OFFSET_SIG if self.jit else nxt()
+                c = make_case(rng, self.fam, sig, 12, [12 // len(pos)] * len(pos), 'every', 'checkpoint', **kw)
+                c['checkpoints'] = [how if p else '' for p in pos]
+                yield c
             # float32 traces with a large offset, float64 precision, >= 3 batches (the 2nd batch of a partitioned / template build
             # object always goes through its second kernel), class sets <= 9 and > 9
             for i, (off, n, splits) in enumerate([('a', 40, [13, 13, 14]), ('b', 40, [10, 10, 10, 10]), ('a', 24, [1, 11, 6, 6]),
@@ -868,7 +924,7 @@ class HistKind(Kind):
                     yield mk(n, comp, mode, 'all_compositions')
                 k += 1
         # --- random compositions above
-        for i in range(40 if quick else 400):
+        for i in range(24 if quick else 400):
             n = rng.randint(8, 40)
             yield mk(n, random_composition(rng, n), MODES[i % 4], 'random')
 
@@ -918,7 +974,8 @@ class HistKind(Kind):
              'block': case['block'], 'mode': case['mode'], 'batches': min(len(case['splits']), 9), 'computes': min(len(comps), 9),
              'nan': 'none' if nn == 0 else ('all' if nn == len(vals) else 'some'), 'exact_sums': exact_regime(case),
              'batch_of_one': 1 in case['splits'], 'word_axes': len(case.get('dims') or [1]), 'tlayout': case.get('tlayout', 'C'),
-             'dlayout': case.get('dlayout', 'C'), 'slicing': case.get('slicing', 'view')}
+             'dlayout': case.get('dlayout', 'C'), 'slicing': case.get('slicing', 'view'),
+             'checkpoint': '+'.join(sorted({x for x in (case.get('checkpoints') or []) if x})) or 'none'}
         if case['fam'] == 'part':
             f['classes'] = 'auto' if case['auto'] else ('<=9' if len(case['parts']) <= 9 else '>9')
             f['metric'] = case['metric']
@@ -937,6 +994,14 @@ class HistKind(Kind):
         n, S, W = len(case['traces']), case['S'], case['W']
         splits, comps = case['splits'], case['computes']
         auto = case.get('auto')
+        cps = case.get('checkpoints') or [''] * len(splits)
+        if any(cps):
+            yield dict(case, checkpoints=[''] * len(splits))
+            for i, cp in enumerate(cps):
+                if cp and sum(1 for x in cps if x) > 1:
+                    yield dict(case, checkpoints=cps[:i] + [''] + cps[i + 1:])
+        if case.get('scribble', True):
+            yield dict(case, scribble=False)
         # fewer compute() calls
         if sum(comps) > 1:
             for i in range(len(comps)):
@@ -952,7 +1017,7 @@ class HistKind(Kind):
                 continue
             sp = splits[:i] + [splits[i] + splits[i + 1]] + splits[i + 2:]
             cp = comps[:i] + [comps[i] + comps[i + 1]] + comps[i + 2:]
-            yield dict(case, splits=sp, computes=cp)
+            yield dict(case, splits=sp, computes=cp, checkpoints=cps[:i] + cps[i + 1:])
         # plain C-ordered arrays, views of one parent
         if case.get('tlayout', 'C') != 'C':
             yield dict(case, tlayout='C')
@@ -994,7 +1059,8 @@ class HistKind(Kind):
                     cp = comps[:b] + comps[b + 1:]
                     if not any(cp):
                         cp[-1] = 1
-                    yield dict(case, traces=[case['traces'][t] for t in keep], data=[case['data'][t] for t in keep], splits=sp, computes=cp)
+                    yield dict(case, traces=[case['traces'][t] for t in keep], data=[case['data'][t] for t in keep], splits=sp, computes=cp,
+                               checkpoints=cps[:b] + cps[b + 1:])
                 pos += size
 
 
@@ -1003,7 +1069,9 @@ RULE = ('histories of update(batch) / compute() on ONE real object: every compos
         'last, all batches of 1, compute between the 2nd and 3rd batch (once, twice), a single batch, sizes 1-2-1, float32 traces with a large offset '
         '(1000 + j/1024, 65536 + j/16) accumulated in float64 over 3-4 batches; 1..4 samples, 1..3 words; '
         'trace dtypes u8/i8/u16/i16/i32/f32/f64 (floats k/8); data with 1..3 word axes; arrays handed to update() as C / Fortran / transposed / '
-        'strided / negative-stride / offset-window / read-only / big-endian, as views of one parent, copies or per-batch arrays; every compute() value and processed_traces compared inside Coq with the '
+        'strided / negative-stride / offset-window / read-only / big-endian, as views of one parent, copies or per-batch arrays; every array returned '
+        'by compute() (t-test: .mean / .var) is overwritten in place by the harness afterwards; the history continues on a deepcopy / pickle '
+        'copy of the object after some updates; every compute() value and processed_traces compared inside Coq with the '
         'one-shot spec on the rows fed before it; non-trivial = at least two batches and a defined value')
 
 
@@ -1056,18 +1124,27 @@ class AnovaKind(PartKind):
 
 
 class NicvKind(PartKind):
+    def checkpoint_cases(self, quick):
+        return 3 if quick else 6
+
     name = 'nicv'
     metric = 'NICV'
     rule = 'NICVDistinguisher: as anova'
 
 
 class SnrKind(PartKind):
+    def checkpoint_cases(self, quick):
+        return 3 if quick else 6
+
     name = 'snr'
     metric = 'SNR'
     rule = 'SNRDistinguisher: as anova'
 
 
 class MiaKind(HistKind):
+    def checkpoint_cases(self, quick):
+        return 3 if quick else 6
+
     name = 'mia'
     fam = 'mia'
     jit = 'base'
@@ -1087,6 +1164,9 @@ class MiaKind(HistKind):
 
 
 class TBuildKind(HistKind):
+    def checkpoint_cases(self, quick):
+        return 3 if quick else 6
+
     name = 'template_build'
     fam = 'tbuild'
     jit = 'heavy'
@@ -1114,4 +1194,258 @@ class TtestKind(HistKind):
     rule = 'scared.ttest.TTestThreadAccumulator: update(traces) / compute() -> (mean, var); ' + RULE
 
 
-KINDS = [CpaKind(), CpaAltKind(), DpaKind(), AnovaKind(), NicvKind(), SnrKind(), MiaKind(), TBuildKind(), TMatchKind(), TtestKind()]
+
+# ------------------------------------------------------------------------------------------------- very large batches
+LARGE_N = [65535, 65536, 70000, 131072, 200000]
+LARGE_FAMS = [('cpa', {}), ('cpa_alt', {}), ('dpa', {}), ('part', {'metric': 'ANOVA'}), ('part', {'metric': 'NICV'}), ('part', {'metric': 'SNR'}),
+              ('mia', {}), ('tbuild', {}), ('tmatch', {'tmode': 'static'}), ('tmatch', {'tmode': 'dpa'}), ('ttest', {})]
+
+
+def make_large(rng, fam, extra, n, i):
+    """n traces made of 4..6 distinct rows (small integers), the first one repeated for 2/3 .. 7/8 of the set; fed in ONE update and
+    in 3..5 updates.  Integer values, float64 precision: all running sums are exact."""
+    S = rng.choice([1, 2])
+    R = rng.randint(4, 6)
+    while True:
+        samples = [[rng.randint(0, 12) for _ in range(S)] for _ in range(R)]
+        if all(len({r[s] for r in samples}) >= 3 for s in range(S)) and samples[0] != samples[1]:
+            break
+    case = {'large': True, 'fam': fam, 'n': n, 'S': S, 'prec': 'float64', 'mia_prec': 'float64', 'auto': False, 'parts': [], 'dden': 1, 'tden': 1,
+            'tdtype': 'float32' if fam in ('part', 'mia', 'tbuild', 'ttest') else rng.choice(['uint8', 'int16', 'float32']), 'ddtype': 'uint8',
+            'block': 'large_n'}
+    case.update(extra)
+    if fam in ('cpa', 'cpa_alt'):
+        W = rng.choice([1, 2])
+        while True:
+            data = [[rng.randint(0, 9) for _ in range(W)] for _ in range(R)]
+            if all(len({r[w] for r in data}) >= 3 for w in range(W)):
+                break
+    elif fam == 'dpa':
+        W = rng.choice([1, 2])
+        data = [[(r + w) % 2 for w in range(W)] for r in range(R)]
+    elif fam == 'part':
+        W = rng.choice([1, 2])
+        parts = (SMALL_SETS + LARGE_SETS)[i % 5]
+        data = [[rng.choice(parts) for _ in range(W)] for _ in range(R)]
+        data[1] = list(data[0])                      # two different rows in one class: the within-class spread is not zero
+        data[2] = [parts[(parts.index(v) + 1) % len(parts)] for v in data[0]]      # and at least two classes
+        case['parts'] = list(parts)
+    elif fam == 'mia':
+        W = rng.choice([1, 2])
+        parts = MIA_SETS[i % 3]
+        data = [[rng.choice(parts) for _ in range(W)] for _ in range(R)]
+        data[2] = [parts[(parts.index(v) + 1) % len(parts)] for v in data[0]]
+        case.update(parts=list(parts), edges=[0.0, 4.0, 8.0, 12.0])
+    elif fam == 'tbuild':
+        W = 1
+        parts = TPL_SETS[i % 4]
+        data = [[parts[r % len(parts)]] for r in range(R)]
+        data[1] = list(data[0])
+        case['parts'] = list(parts)
+    elif fam == 'tmatch':
+        parts = TPL_SETS[i % 4]
+        K = len(parts)
+        W = 1 if case['tmode'] == 'static' else rng.choice([1, 2])
+        data = [[rng.choice(parts) for _ in range(W)] for _ in range(R)] if case['tmode'] == 'dpa' else [[0] for _ in range(R)]
+        case.update(parts=list(parts), pden=rng.choice([1, 2, 4]), T=[[rng.randint(-20, 20) for _ in range(S)] for _ in range(K)],
+                    P=[[rng.randint(-4, 4) for _ in range(S)] for _ in range(S)])
+    else:
+        W, data = 0, [[] for _ in range(R)]
+    others = rng.randint(n // 8, n // 3)
+    share = others // (R - 1)               # balanced minority runs (+-25 %): every class spread stays well conditioned
+    counts = [share + rng.randint(-(share // 4), share // 4) for _ in range(R - 2)]
+    counts.append(others - sum(counts))
+    runs = [[samples[0], data[0], n - others]] + [[samples[r], data[r], counts[r - 1]] for r in range(1, R)]
+    if i % 2:
+        runs = runs[1:3] + runs[:1] + runs[3:]        # the long run in the middle
+    nb = rng.randint(3, 5)
+    bcuts = sorted(rng.sample(range(1, n), nb - 1))
+    if i % 3 == 0:
+        bcuts[0] = 1                                   # a first batch of one trace
+    if i % 3 == 1:
+        bcuts[-1] = n - 1
+    bcuts = sorted(set(bcuts))
+    case.update(W=W, runs=runs, splits=[b - a for a, b in zip([0] + bcuts, bcuts + [n])], dims=[W], tlayout='C', dlayout='C', slicing='view')
+    return case
+
+
+def batch_runs(case):
+    """The update() batches as runs (row, count)."""
+    out, k, left = [], 0, case['runs'][0][2]
+    for size in case['splits']:
+        b = []
+        while size > 0:
+            take = min(size, left)
+            b.append((case['runs'][k][0], case['runs'][k][1], take))
+            size -= take
+            left -= take
+            if left == 0 and k + 1 < len(case['runs']):
+                k += 1
+                left = case['runs'][k][2]
+        out.append(b)
+    return out
+
+
+def run_large(case):
+    share_lut_functions()
+    runs = case['runs']
+    counts = np.array([r[2] for r in runs], dtype='int64')
+    n = int(counts.sum())
+    if n != case['n'] or sum(case['splits']) != n:
+        raise HarnessError('C01 harness: run lengths do not sum to n')
+    tr = np.repeat(np.array([r[0] for r in runs], dtype=case['tdtype']), counts, axis=0)
+    if case['W'] > 0:
+        da = np.repeat(np.array([r[1] for r in runs], dtype='uint8'), counts, axis=0)
+    else:
+        da = np.zeros((n, 0), dtype='uint8')
+    obs = {'computes': [], 'twice_same': True, 'shapes_ok': True, 'inputs_unchanged': True}
+    with warnings.catch_warnings(), np.errstate(all='ignore'):
+        warnings.simplefilter('ignore')
+        o = _Obj(case)
+        pos = 0
+        for size in case['splits']:
+            o.update(tr[pos:pos + size], da[pos:pos + size])
+            pos += size
+            vals, _ = o.compute()
+            obs['computes'].append({'n': o.processed(), 'vals': vals})
+        obs['final_n'] = o.processed()
+        o2 = _Obj(case)
+        o2.update(tr, da)
+        obs['oneshot'], _ = o2.compute()
+        obs['oneshot_n'] = o2.processed()
+    return obs
+
+
+def _mia_ln_keys(case):
+    """The integers whose logarithm the MIA model needs (numerators / denominators of the probabilities of every prefix), from the
+    histogram of the runs (numpy.histogram's bin rule on the integer edges)."""
+    edges = case['edges']
+    nb = len(edges) - 1
+    keys = set()
+
+    def bin_of(x):
+        if x < edges[0] or x > edges[-1]:
+            return None
+        for b in range(nb):
+            if edges[b] <= x < edges[b + 1]:
+                return b
+        return nb - 1
+    prefixes, seen = [], []
+    for b in batch_runs(case):
+        seen = seen + b
+        prefixes.append(list(seen))
+    for pref in prefixes:
+        for s in range(case['S']):
+            for w in range(case['W']):
+                cell = {}
+                for smp, dat, cnt in pref:
+                    b = bin_of(smp[s])
+                    if b is not None and dat[w] in case['parts']:
+                        cell[(b, dat[w])] = cell.get((b, dat[w]), 0) + cnt
+                N = sum(cell.values())
+                cb, cv = {}, {}
+                for (b, v), c in cell.items():
+                    cb[b] = cb.get(b, 0) + c
+                    cv[v] = cv.get(v, 0) + c
+                for (b, v), c in cell.items():
+                    f = Fraction(c, cv[v])
+                    keys.update((f.numerator, f.denominator))
+                for b, c in cb.items():
+                    f = Fraction(c, N)
+                    keys.update((f.numerator, f.denominator))
+    return sorted(k for k in keys if k > 0)
+
+
+class LargeKind(Kind):
+    name = 'large_n'
+    header = HDR
+    case_type = 'lcase'
+    check_fn = 'lcheck'
+    explain_fn = 'lexpected'
+    shard = 4
+    rule = ('all ten kinds (template matching static and DPA) on n = 65535, 65536, 70000, 131072, 200000 traces made of 4..6 distinct integer '
+            'rows, one of them repeated for 2/3 .. 7/8 of the set, fed in ONE update() on a fresh object and in 3..5 updates (first batch of one '
+            'trace, last batch of one trace) with a compute() after each; float64 precision, float32 / u8 / i16 traces; batches run-length '
+            'encoded and evaluated as weighted sums inside Coq (Props/C01.run_length_batch_is_the_expanded_batch); every value within 2^-30 '
+            'relative of the exact one-shot result, processed_traces exact; the one-batch and the split result bit-identical')
+
+    def gen(self, rng, tier):
+        WORKER.new_phase()
+        k = 0
+        for rep in range(1 if tier == 'quick' else 3):
+            for fam, extra in LARGE_FAMS:
+                for n in LARGE_N:
+                    yield make_large(rng, fam, extra, n, k)
+                    k += 1
+
+    def run(self, case):
+        obs = WORKER.call(case)
+        if 'harness_error' in obs:
+            raise HarnessError(obs['harness_error'])
+        return obs
+
+    def coq(self, case, obs):
+        def row(r):
+            return '((%s, %s), %d%%positive)' % (C.coq_list(r[0], C.coq_z), C.coq_list(r[1], C.coq_z), r[2])
+        comps = obs.get('computes', []) if 'raised' not in obs else []
+        lnt = [(k, math.log(k)) for k in _mia_ln_keys(case)] if case['fam'] == 'mia' else []
+        return ('{| l_kind := %s; l_S := %s; l_W := %s; l_parts := %s; l_edges := %s; l_ln := %s; l_pden := %d%%positive; l_T := %s; l_P := %s; '
+                'l_batches := %s; l_obs := %s; l_oneshot := %s |}' % (
+                    coq_kind(case), C.coq_nat(case['S']), C.coq_nat(case['W']), C.coq_list(case['parts'], C.coq_z),
+                    C.coq_list(case.get('edges', []), F), C.coq_list(lnt, lambda p: '(%s, %s)' % (C.coq_z(p[0]), F(p[1]))), case.get('pden', 1),
+                    C.coq_list2(case.get('T', []), C.coq_z), C.coq_list2(case.get('P', []), C.coq_z),
+                    C.coq_list(batch_runs(case), lambda b: C.coq_list(b, row)),
+                    C.coq_list(comps, lambda c: C.coq_pair(C.coq_z(c['n']), C.coq_list(c['vals'], F))), C.coq_list(obs.get('oneshot', []), F)))
+
+    def oracle(self, case, obs):
+        if 'raised' in obs:
+            return f'large_n {case["fam"]}: update/compute raised {obs["raised"]}: {obs["msg"]}'
+        if obs['final_n'] != case['n'] or obs['oneshot_n'] != case['n']:
+            return f'processed_traces = {obs["final_n"]} / {obs["oneshot_n"]} after {case["n"]} traces'
+        if case['fam'] != 'tmatch' and not _same_bits(obs['computes'][-1]['vals'], obs['oneshot']):
+            return ('integer inputs in float64 (all running sums exact), yet ONE update() with all the traces and the same traces in '
+                    f'{len(case["splits"])} updates give different results')
+        return None
+
+    def nontrivial(self, case, obs):
+        return any(v == v for c in obs.get('computes', []) for v in c['vals'])
+
+    def features(self, case, obs):
+        return {'fam': case['fam'] + ('_' + case.get('metric', case.get('tmode', '')) if case['fam'] in ('part', 'tmatch') else ''),
+                'n': case['n'], 'batches': len(case['splits']), 'tdtype': case['tdtype']}
+
+    def tags(self, case, obs):
+        return ['large_n', f'large_n_{case["fam"]}']
+
+    def sample(self, case, obs):
+        return {'case': case, 'observed': obs}
+
+    def shrink(self, case):
+        WORKER.new_phase()
+        runs = case['runs']
+        if len(case['splits']) > 1:
+            yield dict(case, splits=[case['n']])
+            sp = case['splits']
+            yield dict(case, splits=[sp[0] + sp[1]] + sp[2:])
+        if len(runs) > 2:
+            for j in range(len(runs)):
+                rr = runs[:j] + runs[j + 1:]
+                n = sum(r[2] for r in rr)
+                yield dict(case, runs=rr, n=n, splits=[n // 2, n - n // 2] if len(case['splits']) > 1 else [n])
+        for j, r in enumerate(runs):
+            if r[2] > 4:
+                for c in (r[2] // 2, r[2] - 1):
+                    rr = runs[:j] + [[r[0], r[1], c]] + runs[j + 1:]
+                    n = sum(x[2] for x in rr)
+                    yield dict(case, runs=rr, n=n, splits=[n // 2, n - n // 2] if len(case['splits']) > 1 else [n])
+        if case['S'] > 1:
+            c = dict(case, S=1, runs=[[r[0][:1], r[1], r[2]] for r in runs])
+            if case['fam'] == 'tmatch':
+                c['T'] = [r[:1] for r in case['T']]
+                c['P'] = [case['P'][0][:1]]
+            yield c
+        if case['W'] > 1 and case['fam'] != 'tbuild':
+            yield dict(case, W=1, dims=[1], runs=[[r[0], r[1][:1], r[2]] for r in runs])
+
+
+KINDS = [CpaKind(), CpaAltKind(), DpaKind(), AnovaKind(), NicvKind(), SnrKind(), MiaKind(), TBuildKind(), TMatchKind(), TtestKind(), LargeKind()]
